@@ -280,3 +280,28 @@ class NegCls(Neg):
     def ensures(self, c):
         r = c.retdata(); fresh = c.ret.attrs['data'].base != c._names['x.data']
         return [('result.data[d] = -x[d]', c.forall(0, c.D, lambda j: r[j] == self.fvalue(c, j))), ('result is a new object', z3.BoolVal(bool(fresh)))]
+
+
+# ------------------------------------------------------------------------------------------------ coefficient shift (C17)
+@register
+class Shift(Contract):
+    """x.shift(s): coefficients moved by s positions, zeros shifted in, a new object (out=None); shift(s) then shift(-s) is the identity on
+    the retained coefficients (lemma over the postcondition)"""
+    file = 'algopy/utpm/utpm.py'; qual = 'UTPM.shift'; objs = ('self',); arrays = ('self.data',); scalars = {'s': 'int', 'out': 'none'}; modifies = (); returns = 'any'
+    cfgs = {'zero': {'s': 0, 'out': None}, 'negative': {'s': 'int', 'out': None}, 'positive': {'s': 'int', 'out': None}}
+    property_ids = ('C17', 'C14')
+    def cfg_assumptions(self, c, cfg):
+        s = scalar_of(c, 's')
+        return [s.t < 0] if cfg == 'negative' else ([s.t > 0] if cfg == 'positive' else [])
+    def val(self, c, j):
+        x = c.pre['self.data']; s = scalar_of(c, 's').t
+        return z3.If(z3.And(0 <= j - s, j - s < c.D), x[j - s], z3.RealVal(0))
+    def ensures(self, c):
+        r = c.retdata(); fresh = c.ret.attrs['data'].base != c._names['self.data']
+        return [('result.data[j] = x[j - s] where that index exists, 0 elsewhere', c.forall(0, c.D, lambda j: r[j] == self.val(c, j))), ('result is a new object', z3.BoolVal(bool(fresh)))]
+    def spec_lemmas(self, c):
+        # round trip on the retained part, from the postcondition alone: y = shift(x, s), z = shift(y, -s)  =>  z[j] = x[j] whenever j + s is a valid index
+        x = z3.Const('x!sh', S.ARR); y = z3.Const('y!sh', S.ARR); z = z3.Const('z!sh', S.ARR); s = z3.Int('s!sh'); j = z3.Int('j!sh'); q = z3.Int('q!sh'); D = c.D
+        sh = lambda src, dst, k: z3.ForAll([q], z3.Implies(z3.And(0 <= q, q < D), dst[q] == z3.If(z3.And(0 <= q - k, q - k < D), src[q - k], z3.RealVal(0))))
+        hyps = [sh(x, y, s), sh(y, z, -s), 0 <= j, j < D, 0 <= j + s, j + s < D]
+        return [('shift(s) then shift(-s) restores every coefficient j with 0 <= j + s < D', hyps, z[j] == x[j], ())]
